@@ -7,6 +7,7 @@ fingerprint; a hash-distinguishable content change => a different fingerprint.
 The oracle itself never calls fingerprint() on a live object except at the end of a run.
 """
 import math
+import sys
 
 from simkit.engine import Oracle, Violation
 from simkit.world import serif
@@ -56,8 +57,12 @@ def _distinguishable(a, b):
             else:
                 if _isnan(x) or _isnan(y):
                     continue
+                if isinstance(x, (tuple, set, dict)) or isinstance(y, (tuple, set, dict)):
+                    continue      # container elements are hashed structurally, not by hash(); no claim
                 try:
-                    if x != y and hash(x) != hash(y):
+                    # "pairs Python's own hash() cannot tell apart": equal hashes, or hashes
+                    # congruent modulo Python's own hash modulus (the sign convention of int hashes)
+                    if x != y and (hash(x) - hash(y)) % sys.hash_info.modulus != 0:
                         any_d = True
                 except Exception:
                     continue
@@ -75,18 +80,28 @@ def _same_plain(a, b):
     return type(a) is type(b) and a == b
 
 
+def _content(s):
+    if s and s[0] == "V":
+        return s[1]
+    if s and s[0] == "T":
+        return tuple(c[1] if c and c[0] == "V" else c for c in s[2])
+    return s
+
+
 class C16(Oracle):
     prop = "C16"
 
     def start(self, env):
         self.last = {}      # eid -> (fp, plain contents at that probe)
-        self.changed_by = {}  # eid -> op kind of the last step that changed its snapshot since the last probe
+        self.changed_by = {}  # eid -> op kind of the last step that changed its contents since the last probe
+        self.nchanges = {}    # eid -> number of steps that changed its contents since the last probe
 
     def after(self, env, rec, out, ctx, pre):
         if out["st"] == "skip":
             return []
         for eid, s in env.cur.items():
-            if eid in env.prev and env.prev[eid] != s:
+            if eid in env.prev and _content(env.prev[eid]) != _content(s):
+                self.nchanges[eid] = self.nchanges.get(eid, 0) + 1
                 path = rec["op"]
                 w = env.world.entries.get(out["writer"]) if out["writer"] is not None else None
                 if w is not None and w.eid != eid:
@@ -127,7 +142,9 @@ class C16(Oracle):
                                            "%s %s: same contents as at the previous probe, different fingerprint" % (sig["obj"], env.world.name_of(e)), sig))
             else:
                 d = _distinguishable(lplain, plain)
-                if d:
+                # the statement speaks about *a* write: judged only when exactly one step
+                # changed the contents since the previous probe
+                if d and self.nchanges.get(e.eid, 0) == 1:
                     env.probe("c16_sensitivity_checked")
                     if lfp == fp:
                         viols.append(Violation("C16", "C16/insensitive",
@@ -135,6 +152,7 @@ class C16(Oracle):
                                                    sig["obj"], env.world.name_of(e), lplain, plain), sig))
         self.last[e.eid] = (fp, plain)
         self.changed_by.pop(e.eid, None)
+        self.nchanges.pop(e.eid, None)
         return viols
 
     def finish(self, env):
